@@ -188,6 +188,6 @@ pub fn check(rep: &Report) {
     let tier = rep.tier;
     rep.enumerate("bitflips-truncations", false, move |p, n| sweep(tier, p, n), run);
     rep.random("replies", rep.tier.n(3_000, 60_000), 200, decode, run);
-    rep.require("replies", "must-refuse", 1500);
+    rep.require("replies", "must-refuse", 800);
     rep.require("replies", "honest", 50);
 }
